@@ -94,9 +94,12 @@ mutual
           | .ok (ss, n2) => .ok (s :: ss, n2)
 end
 
+/-- `strings.NewReplacer("\n", " ", "\r", " ")` -/
+def oneLine (s : String) : String := s.map (fun c => if c == '\n' || c == '\r' then ' ' else c)
+
 def constructSourceComment (module file leading : String) (inc : Bool) : String :=
   if (module == "" && file == "") || !inc then ""
-  else " #" ++ leading ++ " module: " ++ module ++ ", file: " ++ file
+  else " #" ++ leading ++ " module: " ++ oneLine module ++ ", file: " ++ oneLine file
 
 /-- the top-level operator is printed without parentheses -/
 def parseTop (ty rel : String) (rs : List RelRef) : Userset → Except PrintErr (String × Nat)
